@@ -286,6 +286,39 @@ fn generate(ids: &Ids, thorough: bool) -> Vec<Input> {
       }
     }
   }
+  // ---- two-step histories: something far ahead is recorded first (DATA, or a GAP-list bit), then a HEARTBEAT or
+  // GAP whose range reaches it (the cost of the second datagram must not grow with the distance)
+  let far: &[i64] = if thorough { &[300, 1 << 16, 1 << 22, 40_000_000, 1 << 31, 1 << 40, i64::MAX - 1] } else { &[300, 1 << 22, 40_000_000, 1 << 40] };
+  for &st in &[0u8, 1, 3] {
+    for &n in far {
+      let data = {
+        let mut w = W::new(true);
+        w.u16(0).u16(16).raw(&ids.reader_eid).raw(&ids.writer_eid).sn(n).raw(&[0, 1, 0, 0, 1, 0, 0, 0, 9, 0, 0, 0, 0, 0, 0, 0]);
+        msg(&ids.writer_prefix, &[sub(0x15, 0x04, true, None, &w.b)])
+      };
+      let gapbit = {
+        let mut w = W::new(true);
+        w.raw(&ids.reader_eid).raw(&ids.writer_eid).sn(n.saturating_sub(3)).sn(n.saturating_sub(2)).bitmap(8, None, 0xffff_ffff);
+        msg(&ids.writer_prefix, &[sub(0x08, 0, true, None, &w.b)])
+      };
+      let hb = |first: i64, last: i64| {
+        let mut w = W::new(true);
+        w.raw(&ids.reader_eid).raw(&ids.writer_eid).sn(first).sn(last).i32(11);
+        msg(&ids.writer_prefix, &[sub(0x07, 0, true, None, &w.b)])
+      };
+      let gap = |start: i64, base: i64| {
+        let mut w = W::new(true);
+        w.raw(&ids.reader_eid).raw(&ids.writer_eid).sn(start).sn(base).bitmap(0, None, 0);
+        msg(&ids.writer_prefix, &[sub(0x08, 0, true, None, &w.b)])
+      };
+      for (fname, first) in [("DATA", &data), ("GAP-bit", &gapbit)] {
+        v.push(Input { family: "far-ahead-then-range", desc: format!("{fname} sn={n}, then HEARTBEAT 1..{}", n.saturating_add(2)), state: st, datagrams: vec![first.clone(), hb(1, n.saturating_add(2))] });
+        v.push(Input { family: "far-ahead-then-range", desc: format!("{fname} sn={n}, then HEARTBEAT {n}..{n}"), state: st, datagrams: vec![first.clone(), hb(n, n)] });
+        v.push(Input { family: "far-ahead-then-range", desc: format!("{fname} sn={n}, then GAP 1..{n}"), state: st, datagrams: vec![first.clone(), gap(1, n)] });
+        v.push(Input { family: "far-ahead-then-range", desc: format!("{fname} sn={n}, then HEARTBEAT 1..{} twice", n.saturating_add(2)), state: st, datagrams: vec![first.clone(), hb(1, n.saturating_add(2)), hb(1, n.saturating_add(2))] });
+      }
+    }
+  }
   // ---- corpus mutations: every truncation and every single-byte substitution
   let corpus: Vec<(&str, Vec<u8>)> = {
     let mut c = vec![];
@@ -515,7 +548,7 @@ pub fn run(tier: &str) -> i32 {
   rep.set("distinct_nontrivial", json!(families.len()));
   rep.set("exhaustive", json!(skipped == 0));
   rep.set("inputs_skipped_after_fault_budget", json!(skipped));
-  rep.set("rule", json!("mixed-radix products of boundary alphabets of every submessage's fields (sequence numbers incl. i64::MIN/-1/0/window edges/2^32/i64::MAX, counts, bitmap numBits with exact/missing words, fragment numbers/sizes, sample sizes up to u32::MAX, octetsToInlineQos, all DATA flag bytes, inline-QoS parameter lengths, unknown submessage ids, wrong octetsToNextHeader) x protocol states (fresh, after DATA, half-assembled fragments, behind, after HEARTBEAT; writer with history, writer mid-repair) x source/reader-id variants; contradictory DATAFRAG pairs for one sample; every truncation and 4 substitutions of every byte of 7 valid messages. Each input runs in a subprocess shard (2 GiB address space, 3 s watchdog, counting allocator); after each input well-behaved traffic must still be processed. distinct_nontrivial = distinct (family, state) classes"));
+  rep.set("rule", json!("mixed-radix products of boundary alphabets of every submessage's fields (sequence numbers incl. i64::MIN/-1/0/window edges/2^32/i64::MAX, counts, bitmap numBits with exact/missing words, fragment numbers/sizes, sample sizes up to u32::MAX, octetsToInlineQos, all DATA flag bytes, inline-QoS parameter lengths, unknown submessage ids, wrong octetsToNextHeader) x protocol states (fresh, after DATA, half-assembled fragments, behind, after HEARTBEAT; writer with history, writer mid-repair) x source/reader-id variants; contradictory DATAFRAG pairs for one sample; two-step histories (a DATA or GAP-list bit far ahead, then a HEARTBEAT / GAP whose range reaches it); every truncation and 4 substitutions of every byte of 7 valid messages. Each input runs in a subprocess shard (2 GiB address space, 3 s watchdog, counting allocator); after each input well-behaved traffic must still be processed. distinct_nontrivial = distinct (family, state) classes"));
   rep.assumptions = vec![
     "Datagrams enter through MessageReceiver::handle_received_packet of the receive side and of the writer side; armed repair timers are fired afterwards".into(),
     "Proportionality bounds: peak growth of live heap bytes <= 256 KiB + 64 x input bytes; time <= 0.25 s per input (debug-assertions and overflow checks on, as in the pinned suite)".into(),
